@@ -142,9 +142,24 @@ def handler(case):
         if nxt is not None and evlog and evlog[-1][0] == 2:
             evlog.pop()               # (my step wrapper logs at creation time)
         case = dict(case, segments=case["segments"][1:], entry="irun")
+    if case.get("mid"):
+        # ONE run call; the observer is attached while its generator is being iterated
+        mid = case["mid"]
+        gen = mc.srun(sum(case["segments"])) if case["entry"] == "srun" else mc.irun(sum(case["segments"]))
+        for i, st in enumerate(gen):
+            if i == mid["at"]:
+                mc.file_manager.attach_observer("late", Rec(40, mid["interval"], evlog, sim))
+            if is_mc and case["entry"] != "srun":
+                for _ in st:
+                    pass
+        case = dict(case, segments=[])
     for si, seg in enumerate(case["segments"]):
         if retune and si == retune["seg"]:
-            recs[retune["obs"]].interval = retune["interval"]      # the user re-tunes an attached observer between two run calls
+            if retune.get("replace"):
+                # a new observer attached under the name of an existing one takes its place
+                mc.file_manager.attach_observer(f"rec{retune['obs']}", Rec(30 + retune["obs"], retune["interval"], evlog, sim))
+            else:
+                recs[retune["obs"]].interval = retune["interval"]      # the user re-tunes an attached observer between two run calls
         if case["entry"] == "run":
             mc.run(seg)
         elif case["entry"] == "srun":
